@@ -16,7 +16,7 @@ GEN = os.path.join(vlib.COQ, "gen", "FiberSyncSource.v")
 
 # ------------------------------------------------------------------------------------------------ translator
 FLAGS = ["v_tm_while", "v_rc_notify", "v_rc_while", "v_rt_while", "v_sh_while", "v_shs_while", "v_st_while",
-         "v_st_helper", "v_sl_guard"]
+         "v_st_helper", "v_shs_eq", "v_sl_guard"]
 
 
 class Unrecognised(Exception):
@@ -75,9 +75,13 @@ def variant_of_source(repo):
     v["v_sh_while"] = _choose("SharedMutex::lock", _body(sh, r"void (fiber::)?SharedMutex::lock\(\)\s*\{"), [
         (r"^\{ while \(_occupied\) \{ _exclusive_queue\.Wait\(NoTimeoutTag\{\}\); \} LockHelper\(\); \}$", True),
         (r"^\{ if \(_occupied\) \{ _exclusive_queue\.Wait\(NoTimeoutTag\{\}\); \} LockHelper\(\); \}$", False)])
-    v["v_shs_while"] = _choose("SharedMutex::lock_shared", _body(sh, r"void (fiber::)?SharedMutex::lock_shared\(\)\s*\{"), [
-        (r"^\{ while \(_occupied && _exclusive_mode\) \{ _exclusive_queue\.Wait\(NoTimeoutTag\{\}\); \} SharedLockHelper\(\); \}$", True),
-        (r"^\{ if \(_occupied && _exclusive_mode\) \{ _exclusive_queue\.Wait\(NoTimeoutTag\{\}\); \} SharedLockHelper\(\); \}$", False)])
+    ls = _body(sh, r"void (fiber::)?SharedMutex::lock_shared\(\)\s*\{")
+    v["v_shs_while"] = _choose("SharedMutex::lock_shared", ls, [
+        (r"^\{ while \(_occupied && _exclusive_mode\) \{ _(exclusive|shared)_queue\.Wait\(NoTimeoutTag\{\}\); \} SharedLockHelper\(\); \}$", True),
+        (r"^\{ if \(_occupied && _exclusive_mode\) \{ _(exclusive|shared)_queue\.Wait\(NoTimeoutTag\{\}\); \} SharedLockHelper\(\); \}$", False)])
+    v["v_shs_eq"] = _choose("SharedMutex::lock_shared (queue)", ls, [
+        (r"\{ _exclusive_queue\.Wait\(NoTimeoutTag\{\}\); \}", True),
+        (r"\{ _shared_queue\.Wait\(NoTimeoutTag\{\}\); \}", False)])
     st = _body(rd("include/yaclib/fault/detail/fiber/shared_timed_mutex.hpp"), r"bool TimedWaitHelper\(const Timeout& timeout, bool exclusive\)\s*\{")
     waits = (r"\{ if \(exclusive\) \{ r = _exclusive_queue\.Wait\(timeout\) == WaitStatus::Ready; \} else \{ "
              r"r = _shared_queue\.Wait\(timeout\) == WaitStatus::Ready; \} \}")
@@ -280,6 +284,19 @@ def scenario_sets(tier, seed):
         ex2 = sorted(set(ex2))
         sets.append(("exhaustive: 2 fibers x (<=2,<=2) blocks and 3 fibers x 1 block over the main operations, more condvar "
                      "programs", "dfs", ["--max", str(DFS_CAP)], ex2))
+    # targeted: four fibers on one shared(_timed)_mutex — an exclusive holder that unlocks, a blocked lock_shared
+    # reader, a timed exclusive locker with a finite deadline, and a barging try_lock_shared that keeps the lock over a
+    # virtual-time sleep — and its variations; depth-first with a preemption bound (the lost wake-ups of this family
+    # need one or two voluntary switches; blocking switches and the coin of unlock() are free)
+    tgt = ["shared_timed_mutex/L|l|F|t(S)", "shared_timed_mutex/L|l|U|t(S)", "shared_timed_mutex/L|l|F|l(S)",
+           "shared_timed_mutex/L(S)|l|F|t(S)", "shared_timed_mutex/L|l|f|T(S)", "shared_timed_mutex/L|L|f|t(S)",
+           "shared_timed_mutex/L|l|G|t", "shared_mutex/L|l|L|t", "shared_mutex/L|l|l|T",
+           "timed_mutex/L|L|F|T(S)", "recursive_timed_mutex/L|L|F|T(S)"]
+    if tier == "thorough":
+        tgt += ["shared_timed_mutex/L|lL|F|t(S)", "shared_timed_mutex/L|l|F|f(S)", "shared_timed_mutex/L|l|Z|t(S)"]
+    sets.append(("targeted: 4-5 fibers, readers blocked in lock_shared behind timed exclusive lockers and barging readers; "
+                 "DFS with preemption bound %d" % (1 if tier == "quick" else 2), "dfs",
+                 ["--pb", "1" if tier == "quick" else "2", "--max", str(DFS_CAP)], tgt))
     # seeded random walks over larger configurations
     big = []
     n_big = 40 if tier == "quick" else 160
@@ -295,6 +312,16 @@ def scenario_sets(tier, seed):
         else:
             pl = progs(ALPH[cls], 2, cls.startswith("recursive"))
             big.append("%s/%s" % (cls, "|".join(rnd.choice(pl) for _ in range(k))))
+    # always mix untimed shared lockers with timed exclusive ones (and sleeps inside critical sections)
+    for i in range(8 if tier == "quick" else 40):
+        k = rnd.choice([3, 4])
+        pool = ["L", "l", "F", "G", "U", "t(S)", "l(S)", "L(S)", "T", "f", "lL", "Ll", "FL", "tl"]
+        while True:
+            t = [rnd.choice(pool) for _ in range(k)]
+            j = "".join(t)
+            if "l" in j and any(c in j for c in "FGU") and "L" in j:
+                break
+        big.append("shared_timed_mutex/" + "|".join(t))
     big = sorted(set(big))
     sets.append(("seeded random schedules, 3-4 fibers x <=2 blocks", "random",
                  ["--max", "60" if tier == "quick" else "200", "--seed", str(seed)], big))
@@ -306,7 +333,7 @@ def fib(name):
     return 0 if name == "main" else int(name[1:])
 
 
-TOK = re.compile(r">(\w+)@(\d+)$|(\w+):(\^)$|(\w+):\?(\d+)/(\d+)$|(\w+):!(.*)$|(\w+):([a-z_]+)@(\w+)=(.*)$")
+TOK = re.compile(r">(\w+)@(\d+)$|(\w+):(\^)$|(\w+):\?(\d+)/(\d+)$|(\w+):!(.*)$|(\w+):([a-z_]+)@(\w+)=(.*)$|(\w+):\$(\d)$")
 
 MX_OPS = {"lockx": "OLock", "tryx": "OTry", "unlockx": "OUnlock", "forx": "OTimed", "untilx": "OTimed",
           "cvwait": "OCvWait", "cvfor": "OCvWait", "cvuntil": "OCvWait", "notify1": "ONotifyOne",
@@ -317,7 +344,7 @@ RES_KIND = {"lockx": 1, "unlockx": 2, "tryx": 3, "forx": 4, "untilx": 4, "cvwait
 TIMED_RES = {4, 5, 6, 14}
 
 
-def gallina_op(machine, op, arg, pick):
+def gallina_op(machine, op, arg, pick, coin=0):
     p = pick if pick is not None else 0
     if machine == "Mx":
         k = MX_OPS[op]
@@ -339,13 +366,13 @@ def gallina_op(machine, op, arg, pick):
     if machine == "Rc":
         return {"lockx": "Rc.OLock", "tryx": "Rc.OTry", "unlockx": "Rc.OUnlock %d" % p,
                 "forx": "Rc.OTimed (Dur %d)" % (arg or 0), "untilx": "Rc.OTimed (Abs %d)" % (arg or 0)}[op]
-    return {"lockx": "Sh.OLockX", "tryx": "Sh.OTryX", "unlockx": "Sh.OUnlockX true %d" % p,
+    return {"lockx": "Sh.OLockX", "tryx": "Sh.OTryX", "unlockx": "Sh.OUnlockX %s %d" % ("true" if coin == 0 else "false", p),
             "locks": "Sh.OLockS", "trys": "Sh.OTryS", "unlocks": "Sh.OUnlockS %d" % p,
             "forx": "Sh.OTimedX (Dur %d)" % (arg or 0), "untilx": "Sh.OTimedX (Abs %d)" % (arg or 0),
             "fors": "Sh.OTimedS (Dur %d)" % (arg or 0), "untils": "Sh.OTimedS (Abs %d)" % (arg or 0)}[op]
 
 
-def compact_op(machine, op, arg, pick):
+def compact_op(machine, op, arg, pick, coin=0):
     """(code, a, b) of FiberSyncObs.{mx,rc,sh}_dec"""
     p = pick if pick is not None else 0
     a = arg or 0
@@ -355,7 +382,7 @@ def compact_op(machine, op, arg, pick):
                 "notifyall": (10, 0, 0), "sleep": (11, a, 0)}[op]
     if machine == "Rc":
         return {"lockx": (1, 0, 0), "tryx": (2, 0, 0), "unlockx": (3, p, 0), "forx": (4, a, 0), "untilx": (5, a, 0)}[op]
-    return {"lockx": (1, 0, 0), "tryx": (2, 0, 0), "unlockx": (3, p, 0), "forx": (4, a, 0), "untilx": (5, a, 0),
+    return {"lockx": (1, 0, 0), "tryx": (2, 0, 0), "unlockx": (3, p, coin), "forx": (4, a, 0), "untilx": (5, a, 0),
             "locks": (11, 0, 0), "trys": (12, 0, 0), "unlocks": (13, p, 0), "fors": (14, a, 0), "untils": (15, a, 0)}[op]
 
 
@@ -381,9 +408,11 @@ def map_trace(scenario, trace):
     def start(f):
         op, arg = pending.pop(f)
         if op == "sleep":
+            if machine in ("Rc", "Sh"):
+                return   # sleeping is not an operation of the lock machines: the fiber is idle, time passes by ERun
             arg = now + arg
         last_op[f] = len(evs)
-        evs.append([f, op, arg, None])
+        evs.append([f, op, arg, None, 0])
 
     for idx, tok in enumerate(toks):
         m = TOK.match(tok)
@@ -439,6 +468,8 @@ def map_trace(scenario, trace):
                     joins.append((f, in_join.pop(f), int(w[2])))
                 elif op in ("detach", "yield"):
                     pass
+                elif op == "sleep" and machine in ("Rc", "Sh"):
+                    pass
                 else:
                     k = RES_KIND[op]
                     results.append((k, f, int(w[2]), int(w[3]) if k in TIMED_RES else 0))
@@ -462,6 +493,11 @@ def map_trace(scenario, trace):
                 reads.append((f, x, int(w[1])))
             else:
                 raise ValueError("unknown harness event " + tok)
+        elif m.group(14):
+            f = fib(m.group(14))
+            if f not in last_op:
+                raise ValueError("coin without an operation to attach it to: " + tok)
+            evs[last_op[f]][4] = int(m.group(15))
         elif m.group(10):
             pass  # the runtime's own "<fiber>:<op>@<loc>=<value>" record of a completed wrapped operation
     out, cout = [], []
@@ -471,8 +507,8 @@ def map_trace(scenario, trace):
             out.append("%s.ERun %d %d" % (mach, e[1], e[2]))
             cout.append("R %d %d" % (e[1], e[2]))
         else:
-            out.append("%s.EOp %d (%s)" % (mach, e[0], gallina_op(mach, e[1], e[2], e[3])))
-            cout.append("O %d %d %d %d" % ((e[0],) + compact_op(mach, e[1], e[2], e[3])))
+            out.append("%s.EOp %d (%s)" % (mach, e[0], gallina_op(mach, e[1], e[2], e[3], e[4])))
+            cout.append("O %d %d %d %d" % ((e[0],) + compact_op(mach, e[1], e[2], e[3], e[4])))
     return dict(machine=mach, events=out, cevents=cout, results=results, jn=jn, cjn=cjn, joins=joins, tl=tl, ctl=ctl,
                 reads=reads, slots=seen_slots)
 
@@ -763,7 +799,7 @@ def main(ck):
     for si, (label, mode, extra, names) in enumerate(scenario_sets(ck.tier, ck.seed)):
         results = run_set(exe, mode, extra, names, "%s%d_" % (ck.tier[0], si), do_corr=variant is not None)
         hs = [h for r in results for h in r["heads"]]
-        if mode == "dfs":
+        if mode == "dfs" and "--pb" not in extra:
             exhaustive = exhaustive and len(hs) == len(names) and all(h["exhaustive"] for h in hs)
         ck.notes.append("%s: %d scenarios, %d executions" % (label, len(hs), sum(h["executions"] for h in hs)))
         tot["evaluations"] += sum(h["executions"] for h in hs)
